@@ -20,7 +20,8 @@ NPROC = int(os.environ.get("VERIF_NPROC", "16"))
 
 
 class Case:
-    def __init__(self, harness, label, shape, target=(), group=None, timeout_ms=None, expect=None, no_loop_specs=False, overrides=None, replay=True):
+    def __init__(self, harness, label, shape, target=(), group=None, timeout_ms=None, expect=None, no_loop_specs=False, overrides=None, replay=True,
+                 contracts=None, loop_specs=None):
         self.harness = harness
         self.label = label
         self.shape = shape
@@ -31,6 +32,8 @@ class Case:
         self.replay = replay  # False: the harness only makes sense symbolically (mid-loop states): no native replay of counter-models
         self.overrides = dict(overrides or {})  # assumed contracts on dependencies for this case only
         self.expect = expect  # None (must be proved) | "refuted" (sentinel that must fail)
+        self.contracts = dict(contracts or {})  # modular contracts (real function -> spec function) for this case only
+        self.loop_specs = dict(loop_specs or {})  # loop contracts for this case only
 
 
 class Mutant:
@@ -82,8 +85,13 @@ def _run_case(arg):
         t0 = time.time()
         saved_specs = E.I.loop_specs
         saved_ovr = dict(E.I.overrides)
+        saved_contracts = dict(E.I.contracts)
         if case.no_loop_specs:
             E.I.loop_specs = {}
+        if case.loop_specs:
+            E.I.loop_specs = dict(E.I.loop_specs)
+            E.I.loop_specs.update(case.loop_specs)
+        E.I.contracts.update(case.contracts)
         for k, v in case.overrides.items():
             if k.endswith(".open"):
                 continue  # open() goes through the engine's open hook
@@ -93,6 +101,7 @@ def _run_case(arg):
         finally:
             E.I.loop_specs = saved_specs
             E.I.overrides = saved_ovr
+            E.I.contracts = saved_contracts
         out = {
             "harness": case.harness, "case": case.label, "group": case.group, "unsupported": res.unsupported, "paths": res.paths,
             "seconds": 0.0, "inlined": sorted(res.inlined), "used_contracts": sorted(res.used_contracts),
